@@ -66,6 +66,8 @@ def gen_case(rng: random.Random, tier: str) -> dict:
     used_t = []
     for e in extra:
         f += f" + {e[0]}"
+    if not icpt and rng.random() < 0.15:  # the constant column under a literal scale of its own
+        f += " + " + rng.choice(["2.5:1", "0.5:1", "3:1"])
     ctxk = rng.random() < 0.06
     if ctxk:
         f += " + kc"
